@@ -42,7 +42,7 @@ def gen_graph(rng, allow_kw=True):
         k = rng.choice([1, 2, 2, 3]) if i else rng.choice([2, 3, 4])
         for t in avail[:k]:
             if t in ("list", "tuple"):
-                how = rng.choice(["recurse", "recurse", "recurse", "own", "genexp"] + (["kw"] if allow_kw and rng.random() < 0.15 else []))
+                how = rng.choice(["recurse", "recurse", "recurse", "own", "genexp", "map", "star"] + (["kw"] if allow_kw and rng.random() < 0.15 else []))
             else:
                 how = "leaf"
             methods.append({"type": t, "how": how})
@@ -53,29 +53,38 @@ def gen_graph(rng, allow_kw=True):
             seen = set()
             methods = [m for m in reversed(methods) if not (m["type"] in seen or seen.add(m["type"]))]
         nodes.append({"kind": kind, "parents": parents, "methods": methods})
+    # half of the graphs are written the usual way: every function is a `def walk` (root: @ovld, variants: @parent.variant),
+    # bound to its node name afterwards, so that all functions of the graph share one name in one module
+    nodes[0]["same_name"] = rng.random() < 0.5
     return nodes
 
 
-def method_src(i, first, m):
+def method_src(i, first, m, same_name=False):
     t, how = m["type"], m["how"]
     if how == "leaf":
         body = f"return ('leaf', {i}, '{t}', x)"
     else:
-        call = {"recurse": "recurse(a)", "own": f"f{i}(a)", "genexp": "recurse(a)", "kw": "recurse(x=a)"}[how]
-        seq = f"[{call} for a in x]" if how != "genexp" else f"list({call} for a in x)"
+        call = {"recurse": "recurse(a)", "own": f"f{i}(a)", "genexp": "recurse(a)", "kw": "recurse(x=a)", "map": None, "star": "recurse(*[a])"}[how]
+        seq = "list(map(recurse, x))" if how == "map" else f"[{call} for a in x]" if how != "genexp" else f"list({call} for a in x)"
         body = f"return ('rec', {i}, '{t}', {seq})"
-    return f"def f{i}(x: {t}):\n    {body}\n" if first else f"def _(x: {t}):\n    {body}\n"
+    name = "walk" if same_name else f"f{i}"
+    return f"def {name}(x: {t}):\n    {body}\n" if first else f"def _(x: {t}):\n    {body}\n"
 
 
 def graph_source(nodes):
     out = []
+    sn = bool(nodes[0].get("same_name"))
     for i, nd in enumerate(nodes):
         ms = nd["methods"]
         if nd["kind"] == "root":
             for j, m in enumerate(ms):
-                out.append("@ovld\n" + method_src(i, True, m))
+                out.append("@ovld\n" + method_src(i, True, m, sn))
+            if sn:
+                out.append(f"f{i} = walk\n")
         elif nd["kind"] == "variant":
-            out.append(f"@f{nd['parents'][0]}.variant\n" + method_src(i, True, ms[0]))
+            out.append(f"@f{nd['parents'][0]}.variant\n" + method_src(i, True, ms[0], sn))
+            if sn:
+                out.append(f"f{i} = walk\n")
             for m in ms[1:]:
                 out.append(f"@f{i}.register\n" + method_src(i, False, m))
         elif nd["kind"] == "copy":
@@ -322,7 +331,7 @@ def run(ctx):
     finally:
         shutil.rmtree(work, ignore_errors=True)
     return {"evaluations": stats["evaluations"], "distinct_nontrivial": len(stats["distinct"]),
-            "rule": "random derivation graphs of 2-5 functions (root; variant / copy of one parent; Ovld(mixins=[two earlier nodes])), 1-4 methods per node over int / str / list / tuple, recursive ones using recurse, the node's own name, a generator expression, or (rarely) a positional parameter passed by keyword; every node called twice in two shuffled rounds on nested lists / tuples of depth <= 3; a call is non-trivial when the input nests at least twice and the node is not the root; plus rewriting cases per function id (model tie), non-trivial when they contain a call site; distinct by content",
+            "rule": "random derivation graphs of 2-5 functions (root; variant / copy of one parent; Ovld(mixins=[two earlier nodes])), 1-4 methods per node over int / str / list / tuple, recursive ones using recurse, the node's own name, a generator expression, map(recurse, ...), recurse(*[...]), or (rarely); half of the graphs name every function alike (def walk) in one module; a positional parameter passed by keyword; every node called twice in two shuffled rounds on nested lists / tuples of depth <= 3; a call is non-trivial when the input nests at least twice and the node is not the root; plus rewriting cases per function id (model tie), non-trivial when they contain a call site; distinct by content",
             "samples": samples, "graphs": stats["graphs"], "graphs_with_mixin_fan_in": stats["fan_in_2"], "graphs_with_derivation_depth_ge_2": stats["depth_ge_2"],
             "node_kinds": dict(stats["kinds"]), "method_kinds": dict(stats["hows"]), "calls": stats["calls"],
             "input_depth_histogram": {str(k): v for k, v in sorted(stats["depth_hist"].items())}, "call_outcomes": dict(stats["outcomes"]),
